@@ -26,29 +26,7 @@ void X_verif_assert(uint32_t c) { __CPROVER_assert(c, "H: wrapper/shim assertion
  * them). Blocks are separate objects (bounds are still checked per block) and are never reused; operator delete checks
  * "came from operator new, not deleted twice". NOT detected in this mode: access to a block after operator delete.
  * More than k allocations / a request above the block size = reported bound failure. */
-#ifdef VERIF_NEW_U64
-/* with gen_defs 'VERIF_NEW_U64' the pool blocks are typed uint64_t[] (same memory): a pointer stored into a block is one 64-bit
- * scalar for CBMC and reads back as the pointer (in a byte-typed block it is split into eight byte_extracts that do not fold) */
-#define VERIF_POOL_BLK(i) static uint64_t verif_blkw##i[(VERIF_NEW_BLOCK + 7) / 8];
-#define verif_blk0 ((uint8_t*)verif_blkw0)
-#define verif_blk1 ((uint8_t*)verif_blkw1)
-#define verif_blk2 ((uint8_t*)verif_blkw2)
-#define verif_blk3 ((uint8_t*)verif_blkw3)
-#define verif_blk4 ((uint8_t*)verif_blkw4)
-#define verif_blk5 ((uint8_t*)verif_blkw5)
-#define verif_blk6 ((uint8_t*)verif_blkw6)
-#define verif_blk7 ((uint8_t*)verif_blkw7)
-#define verif_blk8 ((uint8_t*)verif_blkw8)
-#define verif_blk9 ((uint8_t*)verif_blkw9)
-#define verif_blk10 ((uint8_t*)verif_blkw10)
-#define verif_blk11 ((uint8_t*)verif_blkw11)
-#define verif_blk12 ((uint8_t*)verif_blkw12)
-#define verif_blk13 ((uint8_t*)verif_blkw13)
-#define verif_blk14 ((uint8_t*)verif_blkw14)
-#define verif_blk15 ((uint8_t*)verif_blkw15)
-#else
 #define VERIF_POOL_BLK(i) static uint8_t verif_blk##i[VERIF_NEW_BLOCK];
-#endif
 VERIF_POOL_BLK(0) VERIF_POOL_BLK(1) VERIF_POOL_BLK(2) VERIF_POOL_BLK(3) VERIF_POOL_BLK(4) VERIF_POOL_BLK(5) VERIF_POOL_BLK(6) VERIF_POOL_BLK(7)
 VERIF_POOL_BLK(8) VERIF_POOL_BLK(9) VERIF_POOL_BLK(10) VERIF_POOL_BLK(11) VERIF_POOL_BLK(12) VERIF_POOL_BLK(13) VERIF_POOL_BLK(14) VERIF_POOL_BLK(15)
 static uint8_t* const verif_blks[16] = {verif_blk0, verif_blk1, verif_blk2, verif_blk3, verif_blk4, verif_blk5, verif_blk6, verif_blk7,
